@@ -3,11 +3,44 @@
  * same canonical format as `pdshmodel cbuf model|spec`.
  * Built per run from /repo's working tree (assertion+ASan flavour and shipped flavour).
  */
-#include "src/pdsh/cbuf.c"
-
+#if HAVE_CONFIG_H
+#  include "config.h"
+#endif
 #include <stdio.h>
+#include <stdlib.h>
+#include <string.h>
+#include <errno.h>
+#include <unistd.h>
 #include <fcntl.h>
 #include <setjmp.h>
+#include <pthread.h>
+#include <assert.h>
+
+/* scripted descriptor sink: cbuf.c's write() on SINK_FD takes `sink_cap` more bytes and then fails
+ * with EAGAIN (short counts included); everything else goes to the real write() */
+#define SINK_FD 1000
+static long sink_cap;
+static unsigned char *sink_buf;
+static long sink_len, sink_alloc;
+static ssize_t h_write(int fd, const void *buf, size_t n)
+{
+    size_t k;
+    if (fd != SINK_FD)
+        return write(fd, buf, n);
+    if (sink_cap <= 0) { errno = EAGAIN; return -1; }
+    k = n < (size_t) sink_cap ? n : (size_t) sink_cap;
+    if (sink_len + (long) k > sink_alloc) {
+        sink_alloc = (sink_len + (long) k) * 2 + 64;
+        sink_buf = realloc(sink_buf, sink_alloc);
+    }
+    memcpy(sink_buf + sink_len, buf, k);
+    sink_len += k;
+    sink_cap -= k;
+    return (ssize_t) k;
+}
+#define write h_write
+#include "src/pdsh/cbuf.c"
+#undef write
 
 void lsd_fatal_error(char *file, int line, char *mesg)
 {
@@ -47,7 +80,11 @@ static void puthex(const unsigned char *b, int n)
 
 static void stat_tail(cbuf_t cb)
 {
-    printf(" | %d %d %d\n", cbuf_size(cb), cbuf_used(cb), cbuf_lines_used(cb));
+    printf(" | %d %d %d %d\n", cbuf_size(cb), cbuf_used(cb), cbuf_lines_used(cb), cbuf_reused(cb));
+}
+static void stat_mid(cbuf_t cb)
+{
+    printf(" | %d %d %d %d", cbuf_size(cb), cbuf_used(cb), cbuf_lines_used(cb), cbuf_reused(cb));
 }
 
 int main(int argc, char **argv)
@@ -55,6 +92,8 @@ int main(int argc, char **argv)
     static char line[1 << 21];
     static char a1[1 << 21], a2[1 << 21], a3[64];
     cbuf_t cb = NULL;
+    cbuf_t bufs[2] = { NULL, NULL };
+    int second = 0;
 
     if (argc > 1 && strcmp(argv[1], "--meta") == 0) {
         cbuf_t t = cbuf_create(8, 8);
@@ -69,11 +108,37 @@ int main(int argc, char **argv)
         a1[0] = a2[0] = a3[0] = 0;
         nf = sscanf(line, "%31s %s %s %63s", op, a1, a2, a3);
         if (nf < 1) { printf("bad-op\n"); continue; }
+        if (!strcmp(op, "reset")) {
+            bufs[second] = cb;
+            if (bufs[0]) cbuf_destroy(bufs[0]);
+            if (bufs[1]) cbuf_destroy(bufs[1]);
+            bufs[0] = bufs[1] = cb = NULL;
+            second = 0;
+            printf("ok\n");
+            continue;
+        }
+        if (!strcmp(op, "sel")) {
+            bufs[second] = cb;
+            second = atoi(a1) == 1;
+            cb = bufs[second];
+            printf("ok\n");
+            continue;
+        }
         if (!strcmp(op, "create")) {
             if (cb) cbuf_destroy(cb);
             cb = cbuf_create(atoi(a1), atoi(a2));
+            bufs[second] = cb;
             if (!cb) { printf("null\n"); continue; }
             printf("ok"); stat_tail(cb);
+            continue;
+        }
+        if (!strcmp(op, "copy") || !strcmp(op, "move")) {
+            cbuf_t dst = bufs[!second];
+            int nd = -7, n;
+            if (nf < 2) { printf("bad-op\n"); continue; }
+            if (!cb || !dst) { printf("no-cbuf\n"); continue; }
+            n = (op[0] == 'c') ? cbuf_copy(cb, dst, atoi(a1), &nd) : cbuf_move(cb, dst, atoi(a1), &nd);
+            printf("%d %d", n, nd); stat_mid(cb); stat_tail(dst);
             continue;
         }
         if (!cb) { printf("no-cbuf\n"); continue; }
@@ -112,6 +177,23 @@ int main(int argc, char **argv)
             int n = (op[0] == 'r') ? cbuf_read(cb, b, len) : cbuf_peek(cb, b, len);
             printf("%d ", n); puthex(b, n); stat_tail(cb);
             free(b);
+        } else if (!strcmp(op, "replay")) {
+            int len = atoi(a1);
+            unsigned char *b = malloc(len > 0 ? len : 1);
+            int n = cbuf_replay(cb, b, len);
+            printf("%d ", n); puthex(b, n); stat_tail(cb);
+            free(b);
+        } else if (!strcmp(op, "rewind")) {
+            int n = cbuf_rewind(cb, atoi(a1));
+            printf("%d", n); stat_tail(cb);
+        } else if ((!strcmp(op, "rfd") && nf >= 3) || !strcmp(op, "pfd") || !strcmp(op, "yfd")) {
+            int len = atoi(a1), n;
+            if (nf < 3) { printf("bad-op\n"); continue; }
+            sink_cap = atol(a2);
+            sink_len = 0;
+            n = op[0] == 'r' ? cbuf_read_to_fd(cb, SINK_FD, len)
+              : op[0] == 'p' ? cbuf_peek_to_fd(cb, SINK_FD, len) : cbuf_replay_to_fd(cb, SINK_FD, len);
+            printf("%d ", n); puthex(sink_buf, (int) sink_len); stat_tail(cb);
         } else if (!strcmp(op, "rfd")) {
             int len = atoi(a1), pfd[2], n;
             unsigned char *b;
@@ -153,6 +235,8 @@ int main(int argc, char **argv)
         } else
             printf("bad-op\n");
     }
-    if (cb) cbuf_destroy(cb);
+    bufs[second] = cb;
+    if (bufs[0]) cbuf_destroy(bufs[0]);
+    if (bufs[1]) cbuf_destroy(bufs[1]);
     return 0;
 }
